@@ -2,6 +2,8 @@ package main
 
 import (
 	"fmt"
+	"sort"
+	"strings"
 	"go/token"
 	"go/types"
 	"os"
@@ -157,6 +159,26 @@ func (e *Enc) loopCandidates(f *Frame, li *loopInfo) []*Clause {
 					return ge(slLen(a), intLit(1)), ok
 				})
 			}
+		}
+	}
+	// whole-family templates: the loop as a whole leaves a heap component unchanged
+	if !li.all {
+		var fams []string
+		for fam := range li.fams {
+			if strings.HasPrefix(fam, "F.") {
+				fams = append(fams, fam)
+			}
+		}
+		sort.Strings(fams)
+		for _, fam := range fams {
+			fm, srt := fam, li.fams[fam]
+			addC(fmt.Sprintf("%s unchanged by the loop", fm), func(f *Frame, get func(ssa.Value) (Term, bool), st *State) (Term, bool) {
+				pre := f.entry
+				if hi := f.headerIn[h]; hi != nil {
+					pre = hi.st
+				}
+				return eq(f.e.family(st, fm, srt), f.e.family(pre, fm, srt)), true
+			})
 		}
 	}
 	// pairs: integer phi bounded by the length of a string/slice phi of the same header
